@@ -280,4 +280,24 @@ PROPS = {
         "level_text": "Every rendering is executed under the panic/size monitor and judged by marker presence/absence; visibility is restated independently of help_template.rs.",
         "level_note": "Trusted: the visibility restatement (hide / hide_short_help / hide_long_help / next_line_help quirk) and the marker renaming.",
     },
+    "C19": {
+        "quick_ms": 15000,
+        "thorough_ms": 240000,
+        "floors": {"pages.rendered": 50000, "control.pages-compared": 20000, "visible.arg-checked": 30000, "hidden.arg-checked": 3000,
+                   "visible.subcommand-checked": 5000, "hidden.subcommand-checked": 1000},
+        "rule": "wild command trees (depth <= 2, marker names as in C12, env, defaults, headings, possible values with help, versions, authors) in two "
+                "variants with identical structure and identical line structure of every text slot: benign words vs adversarial lines (each "
+                "starting with one of . ' \\ - \" .SH 'br \\fB .\\\" .. followed by hostile fragments: quotes, backslashes, $(), backticks, "
+                "brackets, non-ASCII, tabs). Slots: about, long_about, before/after(_long)_help, author, version, long_version, arg help/long_help, "
+                "possible-value help, defaults, help headings, display_name, subcommand heading and value name. A page is rendered for the root and "
+                "every subcommand (Man::new on the built tree). Oracle: no panic; two renders identical; on the benign variant every non-hidden "
+                "option/positional/subcommand marker present and every hidden one absent; multiset of control lines (first byte . or ') as "
+                "(request, argument count) equal between the variants.",
+        "assumptions": COMMON_ASSUME + ["control-line arguments are counted roff-style: separated by spaces, double quotes group (tabs do not separate)",
+                                        "blank lines in text legitimately become .PP: both variants have the same blank-line pattern",
+                                        "no roff formatter is installed: the page is judged as roff source, which is what the property states"],
+        "technique": "non-interference runtime monitor (benign vs adversarial text, control-line multiset) + marker-set invariant + determinism check",
+        "level_text": "Two executions per tree differing only in text content are compared on the structure that the property fixes (the set of control lines).",
+        "level_note": "Trusted: the control-line scanner (~30 lines).",
+    },
 }
